@@ -11,6 +11,7 @@ import (
 	"math"
 	"sort"
 
+	"github.com/trajectoryjp/spatial_id_go/v4/common"
 	"github.com/trajectoryjp/spatial_id_go/v4/common/object"
 	"github.com/trajectoryjp/spatial_id_go/v4/detector"
 	"github.com/trajectoryjp/spatial_id_go/v4/integrate"
@@ -142,7 +143,26 @@ func driveDeterm(t *Tracer, r Rng, n int) {
 		w := r.randomWindow(hD, vD, false)
 		ids := w.embedExtList(r.randomIDList(w, hD, vD, 5, false))
 		h, v := w.H0+r.In(0, hD), w.V0+r.In(0, vD)
-		switch r.Intn(12) {
+		switch r.Intn(14) {
+		case 12, 13:
+			// the exported set helpers every operation above is built on, called the way a
+			// caller holding sub-slices of longer lists would
+			other := w.embedExtList(r.randomIDList(w, hD, vD, 4, false))
+			if len(ids) > 0 && r.Chance(0.5) {
+				other = append(other, ids[r.Intn(len(ids))])
+			}
+			name := []string{"Union", "Unique", "Intersect", "Difference"}[r.Intn(4)]
+			evDeterm(t, r, "common."+name, name == "Union" || name == "Unique", true, ids, func(in []string) ([]string, error) {
+				switch name {
+				case "Union":
+					return common.Union(in, other), nil
+				case "Unique":
+					return common.Unique(in), nil
+				case "Intersect":
+					return common.Unique(common.Intersect(in, other)), nil
+				}
+				return common.Unique(common.Difference(in, other)), nil
+			}, map[string]any{"l1": ids, "l2": other})
 		case 0:
 			mids := r.randomIDList(w, hD, vD, 4, false)
 			if zoomCost(mids, h-w.H0, v-w.V0) > 3000 {
